@@ -351,11 +351,11 @@ def validate_trace(run: Run, sc, records, label):
 def selftest_trace(run: Run, sc, records):
     """Binding self-test: the orientation flag of one accepted record with a non-zero value is flipped; TLC must
     reject exactly that record."""
-    sample = [dict(r) for r in records if r["num"] == 1][:40]
-    idx = [i for i, r in enumerate(sample) if r["q"][0] != 0 or r["p"][0] != 0]
-    if not idx:
+    nonzero = [dict(r) for r in records if r["num"] == 1 and (r["q"][0] != 0 or r["p"][0] != 0)][:20]
+    if not nonzero:
         return
-    k = idx[len(idx) // 2]
+    sample = [dict(r) for r in records if r["num"] == 1][:20] + nonzero
+    k = len(sample) - len(nonzero) // 2 - 1
     sample[k]["rev"] = 1 - sample[k]["rev"]
     _, rejected = _tlc_trace(sc, sample, "selftest")
     if rejected != [k + 1]:
